@@ -21,8 +21,10 @@ import (
 	"math"
 	"math/rand"
 	"runtime"
+	"sort"
 	"strconv"
 	"strings"
+	"sync"
 	"time"
 
 	"github.com/mgtv-tech/redis-GunYu/config"
@@ -327,6 +329,67 @@ func parseStrict(data []byte) (cmds [][][]byte, err error) {
 
 // ---- checks ------------------------------------------------------------------------------
 
+// Decoder violations are aggregated by failing clause; the (bufio size class, fragmentation)
+// contexts in which a clause failed are summarised into the signature afterwards ("any" when it
+// failed in every class), so that a context-independent defect yields one signature and a
+// buffer-boundary defect names the contexts that trigger it.
+type aggViolation struct {
+	bufs, frags map[string]bool
+	n           int
+	first       []func(sig string)
+}
+
+var (
+	aggMu sync.Mutex
+	aggs  = map[string]*aggViolation{}
+)
+
+func report(base, buf, frag, caseKey, what string, witness map[string]any) {
+	aggMu.Lock()
+	defer aggMu.Unlock()
+	a := aggs[base]
+	if a == nil {
+		a = &aggViolation{bufs: map[string]bool{}, frags: map[string]bool{}}
+		aggs[base] = a
+	}
+	a.bufs[buf], a.frags[frag] = true, true
+	a.n++
+	if len(a.first) < 3 {
+		a.first = append(a.first, func(sig string) { r.Violation(sig, caseKey, what, witness) })
+	}
+}
+
+func flushReports() {
+	summar := func(m map[string]bool, all int) string {
+		if len(m) >= all {
+			return "any"
+		}
+		var l []string
+		for k := range m {
+			l = append(l, k)
+		}
+		sort.Strings(l)
+		return strings.Join(l, ",")
+	}
+	var bases []string
+	for b := range aggs {
+		bases = append(bases, b)
+	}
+	sort.Strings(bases)
+	for _, b := range bases {
+		a := aggs[b]
+		frag := summar(a.frags, len(modes))
+		if len(a.frags) >= 4 {
+			frag = "any"
+		}
+		sig := b + "|buf=" + summar(a.bufs, 3) + "|frag=" + frag
+		for _, f := range a.first {
+			f(sig)
+		}
+		r.Count("decoder_violation_occurrences", int64(a.n))
+	}
+}
+
 func clip(b []byte) string {
 	if len(b) > 80 {
 		return strconv.Quote(string(b[:60])) + fmt.Sprintf("...(%d bytes)", len(b))
@@ -386,7 +449,7 @@ func decodeRun(st *stream, caseKey string, rng *rand.Rand, bufSize int, mode str
 			// end of the (possibly truncated) stream: anything but an error is a fabricated command
 			if err == nil {
 				_, argv, _ := client.ParseArgs(resp)
-				r.Violation("decode|phantom-command|"+ctx, caseKey,
+				report("decode|phantom-command", bufClass(bufSize), mode, caseKey,
 					"the decoder returned a command after the last complete command of the stream",
 					wit(i, map[string]any{"returned_argc": len(argv), "offset": off}))
 			} else if errors.Is(err, io.EOF) || errors.Is(err, io.ErrUnexpectedEOF) {
@@ -399,36 +462,36 @@ func decodeRun(st *stream, caseKey string, rng *rand.Rand, bufSize int, mode str
 		want := st.cmds[i]
 		r.Eval(1)
 		if err != nil {
-			r.Violation("decode|error|"+ctx, caseKey,
+			report("decode|error", bufClass(bufSize), mode, caseKey,
 				fmt.Sprintf("MustDecodeOpt failed on a well-formed command: %v", err), wit(i, map[string]any{"error": err.Error()}))
 			return
 		}
 		name, argv, err := client.ParseArgs(resp)
 		if err != nil {
-			r.Violation("decode|parseargs-error|"+ctx, caseKey,
+			report("decode|parseargs-error", bufClass(bufSize), mode, caseKey,
 				fmt.Sprintf("ParseArgs failed on a well-formed command: %v", err), wit(i, map[string]any{"error": err.Error()}))
 			return
 		}
 		if name != strings.ToLower(want.name) {
-			r.Violation("decode|cmd|"+ctx, caseKey, "command name differs",
+			report("decode|cmd", bufClass(bufSize), mode, caseKey, "command name differs",
 				wit(i, map[string]any{"got": name, "want_lowercase_of": want.name}))
 			return
 		}
 		if len(argv) != len(want.args) {
-			r.Violation("decode|argc|"+ctx, caseKey, "argument count differs",
+			report("decode|argc", bufClass(bufSize), mode, caseKey, "argument count differs",
 				wit(i, map[string]any{"got": len(argv), "want": len(want.args)}))
 			return
 		}
 		for j := range argv {
 			if !bytes.Equal(argv[j], want.args[j]) {
-				r.Violation("decode|arg-bytes|arg="+argClass(want.args[j])+"|"+ctx, caseKey,
+				report("decode|arg-bytes|arg="+argClass(want.args[j]), bufClass(bufSize), mode, caseKey,
 					"argument bytes differ from the bytes sent",
 					wit(i, map[string]any{"arg_index": j, "got": clip(argv[j]), "want": clip(want.args[j]),
 						"got_len": len(argv[j]), "want_len": len(want.args[j]), "first_diff": diffPos(argv[j], want.args[j])}))
 				return
 			}
 			if argv[j] == nil {
-				r.Violation("decode|arg-nil|"+ctx, caseKey, "an empty argument was decoded as a null bulk", wit(i, map[string]any{"arg_index": j}))
+				report("decode|arg-nil", bufClass(bufSize), mode, caseKey, "an empty argument was decoded as a null bulk", wit(i, map[string]any{"arg_index": j}))
 				return
 			}
 		}
@@ -442,7 +505,7 @@ func decodeRun(st *stream, caseKey string, rng *rand.Rand, bufSize int, mode str
 			if len(want.args) > 0 {
 				last = argClass(want.args[len(want.args)-1])
 			}
-			r.Violation("decode|offset|delta="+ds+"|lastarg="+last+"|"+ctx, caseKey,
+			report("decode|offset|delta="+ds+"|lastarg="+last, bufClass(bufSize), mode, caseKey,
 				fmt.Sprintf("offset after command %d is %d, bytes consumed up to and including it are %d", i, off, want.end),
 				wit(i, map[string]any{"got_offset": off, "want_offset": want.end}))
 			return
@@ -450,7 +513,7 @@ func decodeRun(st *stream, caseKey string, rng *rand.Rand, bufSize int, mode str
 		// decode then encode gives back the bytes (canonical multi-bulk form is unique)
 		if want.end-startOf(st, i) <= 1<<16 {
 			if enc, err := client.EncodeToBytes(resp); err != nil || !bytes.Equal(enc, st.bytes[startOf(st, i):want.end]) {
-				r.Violation("roundtrip|Encode-of-decoded|"+ctx, caseKey, "client.Encode(decoded resp) differs from the bytes decoded",
+				report("roundtrip|Encode-of-decoded", bufClass(bufSize), mode, caseKey, "client.Encode(decoded resp) differs from the bytes decoded",
 					wit(i, map[string]any{"encoded": clip(enc), "err": fmt.Sprint(err)}))
 				return
 			}
@@ -724,6 +787,7 @@ func main() {
 		}
 	})
 
+	flushReports()
 	r.Assume("inline commands and stray new-lines are not fed (quantifier: sequences of multi-bulk commands)")
 	r.Assume("command names are ASCII; ParseArgs lower-cases the name, which is compared case-insensitively")
 	r.Assume("syncer/bisync.go decodes with the same client.NewDecoder/MustDecodeOpt/ParseArgs calls as parseAofCommand; no separate path exists")
